@@ -75,9 +75,10 @@ theorem nonmodule_parent {proj : Project} {rank : List Nat} (wf : WFacts proj ra
     have h3 : 0 < S.2.length := List.length_pos_iff.2 hS2
     omega
 
-theorem localName_some {proj : Project} {rank : List Nat} (wf : WFacts proj rank) {s : St} (hI : PdInv proj s)
+theorem localName_some' {proj : Project} {rank : List Nat} (wf : WFacts proj rank) {s : St} (hI : PdInv proj s)
     (e : Names.Env) (he : e.st = s.reg) :
-    ∀ (f i : Nat) (p : Path), pathAux s.reg.objs f i = some p → ∀ y, ∃ r, Names.localName e f i y = some r
+    ∀ (f i : Nat) (p : Path), pathAux s.reg.objs f i = some p → ∀ y,
+      (∃ r, Names.localName e f i y = some r) ∧ (∃ r, Names.localNameSkip e f i y = some r)
   | 0, _, _, h, _ => by simp [pathAux] at h
   | f+1, i, p, h, y => by
     obtain ⟨o, ho, hcase⟩ := pathAux_inv h
@@ -85,43 +86,77 @@ theorem localName_some {proj : Project} {rank : List Nat} (wf : WFacts proj rank
     have hil := (List.getElem?_eq_some_iff.1 ho).1
     obtain ⟨pi, hpi⟩ := path_of_lt hI.reg hil
     -- the parent step, for objects that are not modules
-    have hparent : isModuleCls o.cls = false → ∃ q, o.parent = some q ∧ ∃ r, Names.localName e f q y = some r := by
+    have hparent : isModuleCls o.cls = false → ∃ q, o.parent = some q ∧ (∃ r, Names.localName e f q y = some r) ∧
+        (∃ r, Names.localNameSkip e f q y = some r) := by
       intro hc
       obtain ⟨q, hq⟩ := nonmodule_parent wf hI ho hc
       rcases hcase with ⟨hn, _⟩ | ⟨q', p', hq', hpq, _⟩
       · rw [hq] at hn; cases hn
       · rw [hq] at hq'; injection hq' with hq'; subst hq'
-        exact ⟨q, hq, localName_some wf hI e he f q p' hpq y⟩
-    rw [Names.localName.eq_def]
-    simp only [hgo]
-    cases hc : o.cls with
-    | module =>
-      simp only
+        exact ⟨q, hq, localName_some' wf hI e he f q p' hpq y⟩
+    have hmod : ∀ r0 : Option Path, (match dget o.contents y with
+          | some c => path e.st c
+          | none => match dget o.aliases y with
+            | some t => some t
+            | none => r0) = none → r0 = none := by
+      intro r0 h0
       cases hd : dget o.contents y with
-      | some c => simp only; rw [he]; exact ⟨_, path_child hI.reg ho hd hpi⟩
-      | none => cases dget o.aliases y <;> exact ⟨_, rfl⟩
-    | package =>
-      simp only
-      cases hd : dget o.contents y with
-      | some c => simp only; rw [he]; exact ⟨_, path_child hI.reg ho hd hpi⟩
-      | none => cases dget o.aliases y <;> exact ⟨_, rfl⟩
-    | cls =>
-      simp only
-      cases hd : dget o.contents y with
-      | some c => simp only; rw [he]; exact ⟨_, path_child hI.reg ho hd hpi⟩
+      | some c =>
+        simp only [hd] at h0
+        rw [he, path_child hI.reg ho hd hpi] at h0; cases h0
       | none =>
-        simp only
-        cases dget o.aliases y with
-        | some t => exact ⟨_, rfl⟩
+        simp only [hd] at h0
+        cases ha : dget o.aliases y with
+        | some t => simp [ha] at h0
+        | none => simpa [ha] using h0
+    have hsome : ∀ {x : Option Path}, x ≠ none → ∃ r, x = some r := by
+      intro x hx; cases x with
+      | none => exact absurd rfl hx
+      | some r => exact ⟨r, rfl⟩
+    constructor
+    · rw [Names.localName.eq_def]
+      simp only [hgo]
+      cases hc : o.cls with
+      | module => exact hsome (fun h0 => by have := hmod _ h0; cases this)
+      | package => exact hsome (fun h0 => by have := hmod _ h0; cases this)
+      | cls =>
+        obtain ⟨q, hq, _, r, hr⟩ := hparent (by rw [hc]; rfl)
+        simp only [hq]
+        exact hsome (fun h0 => by have := hmod _ h0; rw [hr] at this; cases this)
+      | function =>
+        obtain ⟨q, hq, ⟨r, hr⟩, _⟩ := hparent (by rw [hc]; rfl)
+        simp only [hq]; exact ⟨r, hr⟩
+      | «attribute» =>
+        obtain ⟨q, hq, ⟨r, hr⟩, _⟩ := hparent (by rw [hc]; rfl)
+        simp only [hq]; exact ⟨r, hr⟩
+    · rw [Names.localNameSkip.eq_def]
+      simp only [hgo]
+      cases hc : o.cls with
+      | module => exact hsome (fun h0 => by have := hmod _ h0; cases this)
+      | package => exact hsome (fun h0 => by have := hmod _ h0; cases this)
+      | cls =>
+        obtain ⟨q, hq, ⟨r1, hr1⟩, r2, hr2⟩ := hparent (by rw [hc]; rfl)
+        simp only [hq]
+        cases hgq : getObj e.st q with
         | none =>
-          obtain ⟨q, hq, r, hr⟩ := hparent (by rw [hc]; rfl)
-          simp only [hq]; exact ⟨r, hr⟩
-    | function =>
-      obtain ⟨q, hq, r, hr⟩ := hparent (by rw [hc]; rfl)
-      simp only [hq]; exact ⟨r, hr⟩
-    | «attribute» =>
-      obtain ⟨q, hq, r, hr⟩ := hparent (by rw [hc]; rfl)
-      simp only [hq]; exact ⟨r, hr⟩
+          simp only [Bool.false_eq_true, if_false]
+          exact hsome (fun h0 => by have := hmod _ h0; rw [hr1] at this; cases this)
+        | some po =>
+          simp only
+          by_cases hcc : canContainImports po.cls = true
+          · rw [if_pos hcc]; exact ⟨r2, hr2⟩
+          · rw [if_neg hcc]
+            exact hsome (fun h0 => by have := hmod _ h0; rw [hr1] at this; cases this)
+      | function =>
+        obtain ⟨q, hq, ⟨r, hr⟩, _⟩ := hparent (by rw [hc]; rfl)
+        simp only [hq]; exact ⟨r, hr⟩
+      | «attribute» =>
+        obtain ⟨q, hq, ⟨r, hr⟩, _⟩ := hparent (by rw [hc]; rfl)
+        simp only [hq]; exact ⟨r, hr⟩
+
+theorem localName_some {proj : Project} {rank : List Nat} (wf : WFacts proj rank) {s : St} (hI : PdInv proj s)
+    (e : Names.Env) (he : e.st = s.reg) (f i : Nat) (p : Path) (h : pathAux s.reg.objs f i = some p) (y : Name) :
+    ∃ r, Names.localName e f i y = some r := (localName_some' wf hI e he f i p h y).1
 
 theorem expandLoop_some {proj : Project} {rank : List Nat} (wf : WFacts proj rank) {s : St} (hI : PdInv proj s)
     (e : Names.Env) (he : e.st = s.reg) :
